@@ -308,6 +308,19 @@ def snapshot(outer, inner, space, action_space, calls, obs=None, exc=0, step=Non
     return rec
 
 
+def scribble(observation):
+    """After it has been recorded, the observation is treated the way a consumer may treat what it was handed:
+    arrays overwritten in place (in-place normalisation, masking of the -1 padding before a gather), a key added.
+    Later observations must not show any of it."""
+    import numpy as np
+
+    if isinstance(observation, dict):
+        for v in list(observation.values()):
+            if isinstance(v, np.ndarray) and v.size:
+                v[...] = 55
+        observation["scribbled_by_the_caller"] = 1
+
+
 def run_episodes(outer, get_inner, space, action_space, episodes, calls, single):
     from job_shop_lib.exceptions import ValidationError
 
@@ -325,6 +338,7 @@ def run_episodes(outer, get_inner, space, action_space, episodes, calls, single)
         inner = get_inner()
         ep["inner"] = inner_info(inner)
         ep["obs"].append(snapshot(outer, inner, space, action_space, calls, o, exc, None, single))
+        scribble(o)
         raised = exc != 0
         for n, pick in enumerate(picks):
             if raised and n >= 2:
@@ -344,6 +358,7 @@ def run_episodes(outer, get_inner, space, action_space, episodes, calls, single)
             snap = snapshot(outer, inner, space, action_space, calls, o, exc, st, single)
             snap["action"] = [int(act[0]), int(act[1])]
             ep["obs"].append(snap)
+            scribble(o)
         eps.append(ep)
     return eps
 
